@@ -59,7 +59,7 @@ def run(prop: str, tier: str, seed: int) -> int:
                   " MaxN = 3\nINVARIANT StoreOK\nINVARIANT BinsLeItems\n", workers=16, timeout=600)
     rep.add_mc("IBL step machine: StoreOK / BinsLeItems", res)
     res = tlc.run("binpack/IBLImpl", cfg_text="SPECIFICATION Spec\nCONSTANTS MaxSide = 2\n MaxTypes = 2\n MaxRep = 2\n"
-                  " MaxN = 3\nINVARIANT NeverReadsOldContents\nINVARIANT WindowsCover\nINVARIANT IndicesInRange\n",
+                  " MaxN = 3\n Slim = FALSE\nINVARIANT NeverReadsOldContents\nINVARIANT WindowsCover\nINVARIANT IndicesInRange\n",
                   workers=16, timeout=900)
     rep.add_mc("IBLImpl: row/window indices of the array-shaped decoders stay inside what was written", res)
     res = tlc.run("tsp/RevMove", cfg_text="SPECIFICATION Spec\nCONSTANTS N = 4\n MaxDist = 2\n Depth = 2\n"
